@@ -271,8 +271,8 @@ pub fn gen(rng: &mut Rng, tier: Tier, out: &mut Vec<String>) {
     } } }
     let nh = if tier == Tier::Quick { 600 } else { 12000 };
     for i in 0..nh { let nops = 1 + rng.below(60); out.push(gen_hist::<Q>(rng, nops, if i % 3 == 0 { 20 } else { 4 }, if i % 10 == 0 { 64 } else { 10 })); }
-    for _ in 0..nh / 3 { let nops = 1 + rng.below(30); out.push(gen_hist::<f64>(rng, nops, 5, 12)); }
-    for _ in 0..nh / 6 { let nops = 1 + rng.below(20); out.push(gen_hist::<Cmplx>(rng, nops, 5, 8)); }
+    for i in 0..nh / 3 { let nops = 1 + rng.below(30); let maxlen = if i % 8 == 0 { 64 } else { 12 }; out.push(gen_hist::<f64>(rng, nops, 5, maxlen)); }
+    for i in 0..nh / 6 { let nops = 1 + rng.below(20); let maxlen = if i % 8 == 0 { 64 } else { 8 }; out.push(gen_hist::<Cmplx>(rng, nops, 5, maxlen)); }
     // complex vectors of 3..10 entries of mixed sizes: the largest modulus sits at a random position (first, middle, last)
     for _ in 0..nh / 4 {
         let n = 3 + rng.below(8);
